@@ -28,6 +28,22 @@ CHECKS = {
             "TLC enumerates call sequences (typed reads of all widths, ReadBytes, Read, ReadAt, Seek with every whence and target in [-1, Len+1], writer round trips, bitmap reads) over data of length <= 9 in both byte orders; each scenario is executed on ten reader backends (memory, Bytes()-reader, io.Reader with and without EOF-with-data, read-all, ReadSeeker with and without known length, ReaderAt, file, mmap) and every execution that deviates from the canonical expectation, plus random histories, is validated event by event by TLC against Binary.tla.",
             "Bounded depth (2-4 calls) and data length; 64-bit values are compared as byte sequences. Not driven: ReadString/WriteString, Clone, InPageCache, invalid whence. Trusted: TLC, the harness's backend constructors.",
             "DESIGN.md §4 C19"),
+    "C14": ("TLA+ function tables over decimal digit strings (Digits.tla, Numeric.tla): TLC enumerates every numeric literal up to a length plus boundary families with the expected result; replay on the code; TLC trace validation of random calls (floats projected to exact digits)",
+            "TLC enumerates all strings up to length 5 (quick) / 6 (thorough) over the numeric alphabet and boundary families around 2^63, 2^64, 19-20 digit mantissas and extreme exponents, with the expected consumed length and value as digit strings computed in TLA+, and formatting cases for AppendInt/AppendDecimal/AppendNumber; the harness replays each with several concrete spellings and records random int64/float64/AppendNumber calls, whose results (floats as exact decimal digits, stdlib ParseFloat logged as the reference the statement names) are judged by TLC against Numeric.tla: exact integers, (0,0) on overflow, digit-level tolerance for floats, sign, well-formedness, prefix preservation, NaN/Inf.",
+            "Float clauses are decided on the first 15 significant digits with a tolerance that never rejects a result within 1e-14; AppendFloat 'within the requested digits' is read on min(prec,15) digits. Six recorded findings (known_findings.jsonl).",
+            "DESIGN.md §4 C14"),
+    "C15": ("TLA+ definition of line/column/context over character-class texts (Position.tla) enumerated by TLC with expectations, plus an error-position spec (ErrorPos.tla) validating by TLC every *parse.Error harvested from the lexers/parsers and the single-illegal-character insertion experiment generated in TLA+ (InsertGen.tla)",
+            "TLC enumerates all texts up to 4-5 character classes (1-4 byte printable, non-printable, the five line-break kinds) x every offset in [-1,len+1] and run-length texts around the elision cut points with the expected line, column and caret target; the harness replays them on parse.Position; every *parse.Error produced on swept and random mutations of JS/JSON/CSS/XML/HTML documents and on TLA+-generated documents with one illegal character inserted at a token boundary is validated by TLC: some byte of the input has exactly the reported line/column/context, and for the insertion experiment it is the inserted character.",
+            "'Roughly 60 characters' is read as a displayed width of 40-66; inside a multi-byte character the column may be that of the character or one more. One recorded finding (xml error position after in-place attribute normalisation).",
+            "DESIGN.md §4 C15"),
+    "C16": ("TLA+ function tables (Helpers.tla): the definitions in the statement transcribed as operators, TLC enumerates every class string up to a bound with the expected result; replay; TLC trace validation of random calls with stdlib results logged as observed facts",
+            "Seven generator families (Number, Dimension, percent-decoding, text helpers, EqualFold, encoding tables, data URIs, media types) enumerate all strings up to length 2-7 over the relevant class alphabets with expectations computed in TLA+ from the definitions in the statement; the harness replays 1.4M cases (quick), runs all 256 byte values and hash-table probes (every constant, case variants, one-edit neighbours, non-members), and TLC validates the recorded calls against Helpers.tla, requiring agreement with url.QueryUnescape / mime.ParseMediaType only where the statement demands it.",
+            "Bounded string length; literal '+' in data URIs is accepted in either decoding (the statement is ambiguous). No defect found.",
+            "DESIGN.md §4 C16"),
+    "C17": ("TLA+ spec Normalise.tla: whitespace replacement by definition (TLC-enumerated expectations), relational clauses for entities and attribute escaping judged by TLC trace validation over observed facts (html.UnescapeString of input and output, the real lexer's reading of the escaped attribute)",
+            "TLC enumerates all whitespace strings up to length 7, all sequences of up to 5-6 entity fragments, all attribute values up to length 5 x original quote x mustQuote and CDATA texts; the harness runs ReplaceMultipleWhitespace / ReplaceEntities / the combined function / html+xml EscapeAttrVal / EscapeCDATAVal on private copies (also checking nothing outside the argument is written), feeds escaped attributes to the real html/xml lexers, and TLC validates every event against Normalise.tla: exact output for whitespace, never-longer / idempotent / decoded-text-preserving for entities, read-back and quoting rules for attributes.",
+            "Entity decoding reference is Go's html.UnescapeString as the statement names HTML decoding. Two recorded findings (abutting references, hex overflow) in known_findings.jsonl.",
+            "DESIGN.md §4 C17"),
 }
 NOT_APPLICABLE = {
 }
